@@ -1,6 +1,6 @@
 (* C14 (set half) — property theorems.  Only statements, [exact lemma] and Print Assumptions. *)
 From Coq Require Import NArith List Bool Sorting.Sorted.
-From FV Require Import C14.Model C14.Proofs C14.SetObs C14.SetAfter C14.SetDom C14.SetRangeU C14.SetEq C14.SetOrd C14.SetL0.
+From FV Require Import C14.Model C14.Proofs C14.SetObs C14.SetAfter C14.SetDom C14.SetRangeU C14.SetEq C14.SetOrd C14.SetL0 C14.SetL0Proofs.
 Import ListNotations.
 Open Scope N_scope.
 
@@ -152,6 +152,34 @@ Theorem c14_process_L0_refines_L1_bounded :
   forall a b, In a (states_over [0; 1; 2]) -> In b (states_over [0; 1; 2]) -> refines_on a b = true.
 Proof. exact process_L0_refines_L1_bounded_all. Qed.
 
+(* L0, UNBOUNDED parts (SetL0Proofs.v).  [Inv0 x]: |page_map| = |pages|, page indices distinct and in range, majors ascending.
+   [WF .. s]: the loop invariant of steps 3-4 (indices in use distinct and below next_page, idx_a <= count, exact count,
+   next_page + pending right pages = new size, left keys matched when the left side does not pass through). *)
+(* merging from the last page to the first (the order of steps 3-4) yields the forward L1 merge *)
+Theorem c14_backward_merge_is_merge : forall pl pr f A B out, ksorted A -> ksorted B ->
+  bmerge pl pr f (rev A) (rev B) out = merge pl pr f A B ++ out.
+Proof. exact bmerge_merge. Qed.
+(* steps 3 + 4 (in-place, aliasing page_map slots and pages) from ANY prepared state, all four operators:
+   the final (pages, page_map) abstracts to the L1 merge of the prepared left entries with the right set *)
+Theorem c14_process_L0_steps34 : forall pl pr f PB B0 n, ksorted (absE PB B0) -> forall s,
+  WF pl pr f PB B0 n s -> s_count s = n -> s_ib s = length B0 ->
+  absE (s_pages (run34 pl pr f PB B0 s)) (s_pm (run34 pl pr f PB B0 s)) = merge pl pr f (viewA s) (absE PB B0) /\
+  length (s_pm (run34 pl pr f PB B0 s)) = n /\ length (s_pages (run34 pl pr f PB B0 s)) = n.
+Proof. exact run34_spec. Qed.
+(* process_L0_refines_L1, PARTIAL: end to end (steps 1-4, resize) for every operator that passes the left side through
+   (union, subtract).  For intersect / reversed_subtract the front-compaction of step 1 and `compact` (step 2) are not
+   proved for arbitrary sizes: covered by c14_process_L0_steps34 from the prepared state and by the bounded theorem. *)
+Theorem c14_process_L0_refines_L1_partial : forall f a b la lb,
+  N.testbit (f 1 0) 0 = true -> Inv0 a -> Inv0 b ->
+  abs0 (process0 f a b) = pgs (process f (mkBS (abs0 a) la) (mkBS (abs0 b) lb)).
+Proof. exact process0_refines_process_pl. Qed.
+Theorem c14_process_L0_union : forall a b la lb, Inv0 a -> Inv0 b ->
+  abs0 (process0 N.lor a b) = pgs (bs_union (mkBS (abs0 a) la) (mkBS (abs0 b) lb)).
+Proof. exact process0_union_refines. Qed.
+Theorem c14_process_L0_subtract : forall a b la lb, Inv0 a -> Inv0 b ->
+  abs0 (process0 N.ldiff a b) = pgs (bs_subtract (mkBS (abs0 a) la) (mkBS (abs0 b) lb)).
+Proof. exact process0_subtract_refines. Qed.
+
 (* ---- RangeSet, UNBOUNDED (SetRangeU.v).  [canon l]: sorted by start, every range non-empty, every later range
    starts beyond end + 1 of every earlier one (disjoint and non-adjacent); [cov l v]: v lies in some range of l
    (for a list of inserted ranges: in some well-formed one; reversed ranges cover nothing and are ignored). ---- *)
@@ -197,3 +225,8 @@ Print Assumptions c14_intersects_set.
 Print Assumptions c14_eq_iff_members.
 Print Assumptions c14_ord_is_lex_on_members.
 Print Assumptions c14_process_L0_refines_L1_bounded.
+Print Assumptions c14_backward_merge_is_merge.
+Print Assumptions c14_process_L0_steps34.
+Print Assumptions c14_process_L0_refines_L1_partial.
+Print Assumptions c14_process_L0_union.
+Print Assumptions c14_process_L0_subtract.
